@@ -1,24 +1,25 @@
 ------------------------------ MODULE MC_Checkup ------------------------------
 EXTENDS Checkup, TLC, Json
 CONSTANTS Kinds, As, Bs, Near      \* values within +-Near of each threshold, each with -1/0/+1 ulp
-VARIABLES hist, last
-mcvars == <<ckvars, hist, last>>
-View == <<ckvars, last>>
+VARIABLES hist, last, ini0
+mcvars == <<ckvars, hist, last, ini0>>
+View == <<ckvars, last, ini0>>
 
 Thresholds == IF kind = "rel" THEN {ta, tb} ELSE {ta - tb, ta + tb, ta}
 Values == {<<k, d>> : k \in UNION {(t - Near)..(t + Near) : t \in Thresholds}, d \in {-1, 0, 1}}
 
-Init == /\ \E kd \in Kinds, a \in As, b \in Bs :
-             /\ (kd = "rel" => a <= b)
-             /\ InitWith(kd, a, b, "stale")
+\* reliability thresholds are explored in either order (the constructor accepts low > high: "ERROR below the low threshold" wins)
+Init == /\ \E kd \in Kinds, a \in As, b \in Bs, ini \in {"stale", "custom0", "custom2"} :
+             /\ (kd = "rel" => ini = "stale")
+             /\ InitWith(kd, a, b, ini) /\ ini0 = ini
         /\ hist = <<>> /\ last = <<0, 0>>
-DoEvaluate == \E v \in Values : Evaluate(v) /\ last' = v /\ hist' = Append(hist, [e |-> "evaluate", k |-> v[1], ulp |-> v[2]])
-DoTimeout  == Timeout /\ last' = last /\ hist' = Append(hist, [e |-> "timeout"])
+DoEvaluate == \E v \in Values : Evaluate(v) /\ last' = v /\ ini0' = ini0 /\ hist' = Append(hist, [e |-> "evaluate", k |-> v[1], ulp |-> v[2]])
+DoTimeout  == Timeout /\ last' = last /\ ini0' = ini0 /\ hist' = Append(hist, [e |-> "timeout"])
 Next == DoEvaluate \/ DoTimeout
 Spec == Init /\ [][Next]_mcvars
 
 ReturnedIsStored == (returned # None /\ report.verdict # "timeout") => returned = report.status
 ThresholdMeaning == (report.value.has) => (report.value.k = last[1] /\ Meaning(last, report.status))
-EmitState == PrintT(ToJson([kind |-> kind, a |-> ta, b |-> tb, near |-> Near, path |-> hist]))
+EmitState == PrintT(ToJson([kind |-> kind, a |-> ta, b |-> tb, near |-> Near, path |-> hist, ini |-> ini0]))
 ASSUME Laws
 =============================================================================
